@@ -191,3 +191,11 @@ Lemma flat_map_ext_in {A B} (f g : A -> list B) l :
 Proof.
   induction l as [|h t IH]; simpl; auto. intros H. rewrite H by auto. f_equal. apply IH. auto.
 Qed.
+
+(* insertion sort on N, used to canonicalise unordered observations *)
+Fixpoint insertN (x : N) (l : list N) : list N :=
+  match l with
+  | [] => [x]
+  | h :: t => if N.leb x h then x :: l else h :: insertN x t
+  end.
+Definition sortN (l : list N) : list N := fold_right insertN [] l.
